@@ -282,6 +282,15 @@ func (idx *PQIndex) Add(vector VectorNode) error {
 	}
 
 	// Encode vector into PQ code
+	// Re-adding an ID that is still soft-deleted (update = remove + add):
+	// purge the stale entry first, otherwise the new vector would stay hidden
+	// behind the tombstone and be dropped by the next Flush.
+	if idx.deletedNodes.Contains(vector.ID()) {
+		if err := idx.flushLocked(); err != nil {
+			return err
+		}
+	}
+
 	code := idx.encode(vector.Vector())
 
 	// Store compressed code and metadata
@@ -370,6 +379,11 @@ func (idx *PQIndex) Flush() error {
 	idx.mu.Lock()
 	defer idx.mu.Unlock()
 
+	return idx.flushLocked()
+}
+
+// flushLocked is Flush without taking the lock; the caller must hold the write lock.
+func (idx *PQIndex) flushLocked() error {
 	// Quick exit if nothing to flush
 	deletedCount := int(idx.deletedNodes.GetCardinality())
 	if deletedCount == 0 {
